@@ -166,6 +166,8 @@ fn start_states(max_addr: u8, max_down: usize, ops: usize, words: &[u32]) -> Res
 }
 
 struct StableResult {
+    /// the search was cut by the wall budget (not a fixpoint)
+    cut: bool,
     states: u64,
     transitions: u64,
     max_age: u16,
@@ -174,19 +176,23 @@ struct StableResult {
 }
 
 /// BFS over the product (record order, cursor, ages) from one start state.
-fn stable_phase(start: &F, words: &[u32], seen: &mut HashSet<u128>) -> Result<StableResult, String> {
+fn stable_phase(start: &F, words: &[u32], seen: &mut HashSet<u128>, deadline: std::time::Instant) -> Result<StableResult, String> {
     let v = View::of(start);
     let n = v.active.len();
     let downs = v.members.len() - n;
     let bound = (2 * n - 1) as u16;
     let ages0: Vec<(Id, u16)> = v.active.iter().map(|i| (*i, 0)).collect();
     let mut q: VecDeque<(F, Vec<(Id, u16)>)> = VecDeque::new();
-    let mut res = StableResult { states: 0, transitions: 0, max_age: 0, n, downs };
+    let mut res = StableResult { cut: false, states: 0, transitions: 0, max_age: 0, n, downs };
     if seen.insert(hash128(&key_of(start, &ages0))) {
         q.push_back((start.clone(), ages0));
         res.states += 1;
     }
     while let Some((f, ages)) = q.pop_front() {
+        if res.transitions % 4096 == 0 && std::time::Instant::now() > deadline {
+            res.cut = true;
+            break;
+        }
         let view = View::of(&f);
         for (script, target, c) in probe_round(&f, words)? {
             res.transitions += 1;
@@ -236,7 +242,7 @@ fn stable_phase(start: &F, words: &[u32], seen: &mut HashSet<u128>) -> Result<St
 pub fn c14(tier: &str) -> Report {
     let th = tier == "thorough";
     let mut rep = Report::new("C14", tier, "model_checking");
-    let (max_addr, max_down, ops) = if th { (6u8, 3usize, 8usize) } else { (5, 2, 6) };
+    let (max_addr, max_down, ops) = if th { (6u8, 3usize, 7usize) } else { (5, 2, 6) };
     let l = max_addr as usize; // records never exceed the number of addresses
     let words = rng::menu(l + 1, l);
     match rng::calibrate(&words, l + 1, l) {
@@ -252,17 +258,37 @@ pub fn c14(tier: &str) -> Report {
     };
     rep.set("start_states", json!(starts.len()));
     // group results per (n, downs)
+    // simplest shapes first; a wall budget bounds the run (start states not
+    // reached within it are counted and reported, never called covered)
+    let mut starts = starts;
+    starts.sort_by_key(|f| {
+        let v = View::of(f);
+        (v.members.len(), v.active.len())
+    });
+    let budget_s: f64 = if th { 900.0 } else { 40.0 };
+    let t0 = std::time::Instant::now();
+    let skipped = std::sync::atomic::AtomicU64::new(0);
     let chunks: Vec<Result<Vec<StableResult>, String>> = starts
-        .par_chunks(8.max(starts.len() / 64))
+        .par_chunks(4.max(starts.len() / 512))
         .map(|chunk| {
             let mut seen = HashSet::new();
             let mut v = Vec::new();
             for s in chunk {
-                v.push(stable_phase(s, &words, &mut seen)?);
+                if t0.elapsed().as_secs_f64() > budget_s || crate::e1::rss_gb() > 14.0 {
+                    skipped.fetch_add(1, std::sync::atomic::Ordering::Relaxed);
+                    continue;
+                }
+                let r = stable_phase(s, &words, &mut seen, t0 + std::time::Duration::from_secs_f64(budget_s * 1.2))?;
+                if r.cut {
+                    skipped.fetch_add(1, std::sync::atomic::Ordering::Relaxed);
+                }
+                v.push(r);
             }
             Ok(v)
         })
         .collect();
+    let skipped = skipped.load(std::sync::atomic::Ordering::Relaxed);
+    rep.set("start_states_not_explored_within_the_wall_budget", json!(skipped));
     let mut table: std::collections::BTreeMap<(usize, usize), (u64, u64, u16, u64)> = Default::default();
     for c in chunks {
         match c {
@@ -303,7 +329,7 @@ pub fn c14(tier: &str) -> Report {
     }
     rep.set("per_membership_shape", json!(rows));
     rep.distinct_nontrivial = rep.states;
-    rep.exhaustive = true;
+    rep.exhaustive = skipped == 0;
     rep.rule = "start states: all histories of <= k operations (join, member down, forget, probe round) under all RNG answers; stable phase: breadth-first search to FIXPOINT over (record order, cursor, rounds-since-pinged per member), one transition = one real probe round, every shuffle outcome a branch".into();
     rep.sample(json!({"stable_run": "3 active + 1 Down record, cursor past the end: shuffle (24 outcomes), ping the first active record, ..."}));
     rep.assume("the choice of the next member depends only on (record order, record states, cursor, RNG): the product state omits probe number and backlog");
